@@ -74,7 +74,7 @@ CONV_SIG = "idle metaepoch in which every awake active deme ran but re-used the 
 MODEL_CLAUSES = {
     "C03": ["Inv_C03_TotalIsSumOfLevels", "Inv_C03_BudgetHard", "Inv_C03_TotalEqualsCalls", "Inv_C03_RequestsSplit"],
     "C05": ["Inv_C05_WindDownAtMostOne", "Inv_C05_DoneImpliesGsc", "Inv_C05_CounterEqualsPerformed",
-            "Act_C05_NoSproutAfterGsc", "Act_C05_McMonotone"],
+            "Act_C05_NoSproutAfterGsc", "Act_C05_McMonotone", "Termination"],
     "C06": ["Inv_C06_SteppedExactlyOnce", "Inv_C06_NewbornHasNotRun", "Act_C06_InactiveFrozen", "Act_C06_StopCauses"],
     "C07": ["Inv_C07_Structure", "Inv_C07_IdLaw"],
     "C08": ["Inv_C08_ActiveWithinLimit", "Act_C08_RoundWithinFree"],
@@ -174,7 +174,7 @@ def _corpus_cov(cs, ms, pid, extra_rule=""):
                         "generated": ms["generated"], "depth": ms["depth"], "action_coverage": ms["action_coverage"],
                         "clauses": MODEL_CLAUSES.get(pid, []),
                         "stall_witness_reachable": ms["stall_witness_reachable"],
-                        "witnesses": ms.get("witnesses", {}),
+                        "witnesses": ms.get("witnesses", {}), "liveness": ms.get("liveness", {}),
                         "growth_invariants": ["Inv_G_ClockNotAhead", "Inv_G_ClockInSync", "Inv_G_SinceSproutRawNonNeg",
                                               "Inv_G_SinceSproutBounded"]}
     return cov
